@@ -30,6 +30,10 @@ class Infeasible(EngineSignal):
     """current path condition is unsatisfiable; abandon the path silently"""
 
 
+class PathEnd(EngineSignal):
+    """the path ends here by construction (e.g. the inductive step of a loop has been checked)"""
+
+
 class PathLimit(EngineSignal):
     pass
 
@@ -423,7 +427,7 @@ def is_sym(v):
 
 
 def has_sym(v, depth=3):
-    if isinstance(v, (Sym, SymList)):
+    if isinstance(v, (Sym, SymList, SymDict)):
         return True
     if depth > 0 and isinstance(v, (list, tuple)):
         return any(has_sym(x, depth - 1) for x in v)
@@ -562,6 +566,29 @@ class SymList:
 
     def __repr__(self):
         return f'SymList({self.name}, len={self.length})'
+
+
+class SymDict:
+    """insertion-ordered dict with a symbolic number n of entries: key(i) -> val(i), keys pairwise distinct
+    (callers state distinctness facts where they need them).  Only iteration views are supported."""
+
+    def __init__(self, name, n, key, val, path):
+        self.name, self.n, self.key, self.val, self.path = name, n, key, val, path
+
+    def items(self):
+        return SymList(self.name + '.items', self.n, lambda p, i: (self.key(i), self.val(i)), self.path)
+
+    def values(self):
+        return SymList(self.name + '.values', self.n, lambda p, i: self.val(i), self.path)
+
+    def keys(self):
+        return SymList(self.name + '.keys', self.n, lambda p, i: self.key(i), self.path)
+
+    def __iter__(self):
+        raise SymbolicEscape('iteration over a symbolic dict in uninterpreted code')
+
+    def __len__(self):
+        raise SymbolicEscape('len() of a symbolic dict in uninterpreted code')
 
 
 # --------------------------------------------------------------------------------------
@@ -735,6 +762,19 @@ class Path:
             return True
         if r == z3.sat:
             m = self.solver.model()
+            # prefer a small counter-model (easier to replay natively): bound all integer inputs
+            ints = [v.term for v in self.inputs.values() if isinstance(v, SymInt)]
+            if ints:
+                self.solver.set('timeout', 3000)
+                for B in (8, 256, 70000):
+                    cs = [z3.And(x >= -B, x <= B) for x in ints]
+                    try:
+                        if self.solver.check(z3.Not(t), *cs) == z3.sat:
+                            m = self.solver.model()
+                            break
+                    except z3.Z3Exception:
+                        break
+                self.solver.set('timeout', self.ex.branch_timeout_ms)
             res = ObligationResult(
                 name, 'failed', model=self.model_of(m), detail=detail, path_id=self.id, seconds=dt)
             res.z3model = m
